@@ -398,7 +398,8 @@ def event_log_digest(steps, result):
     for rec in warm.get("records", []):
         h.update(json.dumps(rec, sort_keys=True).encode())
     for p in result["probes"]:
-        h.update(json.dumps(p, sort_keys=True).encode())
+        # "cached" says whether the cold reference was reused from an earlier schedule: a cost artefact
+        h.update(json.dumps({k: v for k, v in p.items() if k not in ("cached", "cold_clock")}, sort_keys=True).encode())
     if "shim" in warm:
         h.update(json.dumps(warm["shim"], sort_keys=True).encode())
     h.update(json.dumps(warm.get("entered", {}), sort_keys=True).encode())
